@@ -82,6 +82,12 @@ pub fn run(prop: &str, a: &Args, rep: &mut Report) {
         rep.set("micro_operand_classes", format!("{:#04x}:{}:{}", info.opc, info.cls_a, info.cls_b));
         rep.set("micro_templates", info.template);
         let tag = format!("micro#{idx}");
+        // one case in eight also in another placement (program bytes at an unaligned address,
+        // packet at the other end of its mapping, metadata buffer and packet in the other order)
+        if k % 8 == 3 {
+            rep.count("placement_variants");
+            batch.push(pre_run(c.with_placement(k as u8), format!("{tag}+placed"), BUDGET));
+        }
         batch.push(pre_run(c, tag, BUDGET));
         if batch.len() >= batch_n {
             handle(rep, std::mem::take(&mut batch));
@@ -108,6 +114,10 @@ pub fn run(prop: &str, a: &Args, rep: &mut Report) {
         let (c, feats) = gen_struct(&mut rng, &opts);
         for f in feats {
             rep.set("struct_features", f);
+        }
+        if k % 4 == 1 {
+            rep.count("placement_variants");
+            batch.push(pre_run(c.with_placement(k as u8), format!("struct#{}.{k}+placed", a.shard), BUDGET));
         }
         batch.push(pre_run(c, format!("struct#{}.{k}", a.shard), BUDGET));
         if batch.len() >= batch_n {
